@@ -45,6 +45,15 @@ def pick_problem(rng, Lmin=1, Lmax=7, maxdim=512):
         H = gen.rand_hermitian_mpo(rng, qd, L, Dmax=2)
         label = src
     prof = str(rng.choice(['random', 'random', 'max', 'over', 'one']))
+    if rng.random() < 0.12 and len(H.qd) ** L <= 256:
+        # start from an EXACT eigenstate of H (quantum numbers switched off on a copy of the operator): every local Krylov space is one-dimensional
+        # (breakdown at the first iteration), the state may only acquire a phase
+        import copy as _copy
+        H = _copy.deepcopy(H).zero_qnumbers()
+        lam, U = np.linalg.eigh((lambda M: (M + M.conj().T) / 2)(refs.dense_operator(H.A)))
+        psi = ptn.MPS.from_vector(len(H.qd), L, U[:, int(rng.integers(0, U.shape[1]))] * complex(rng.normal(), rng.normal()), 0)
+        if np.linalg.norm(refs.dense_state(psi.A)) > 1e-8:
+            return label + '+eigenstate-start', L, H, psi, 'eigenstate'
     for _ in range(20):
         psi = gen.rand_mps(rng, H.qd, L, prof, Dmax=4, kind=str(rng.choice(['complex', 'real'])))
         if np.linalg.norm(refs.dense_state(psi.A)) > 1e-8:
